@@ -633,6 +633,12 @@ fn run_fil(id: u64, g: &FilCase, api: &Discv5, inb: bool, rt: &tokio::runtime::R
                 if *ex {
                     rf.expected_responses.write().insert(src, 1);
                 }
+                // an answer awaited from ANOTHER port of the same IP address exempts nothing here:
+                // exemptions are per socket address
+                let decoy = SocketAddr::new(ip_of(*ip), 9001);
+                if i % 2 == 0 {
+                    rf.expected_responses.write().insert(decoy, 1);
+                }
                 let kind = match k {
                     0 => DatagramKind::Garbage,
                     255 => DatagramKind::WhoAreYou,
@@ -642,6 +648,7 @@ fn run_fil(id: u64, g: &FilCase, api: &Discv5, inb: bool, rt: &tokio::runtime::R
                 if *ex {
                     rf.expected_responses.write().remove(&src);
                 }
+                rf.expected_responses.write().remove(&decoy);
                 Some(match fate {
                     Fate::Dropped => 0,
                     Fate::Unrecognized => 1,
